@@ -174,6 +174,8 @@ def loss_context(ex, s, x):
 
 
 PROFILE = {
+    'world_kw_st': st.fixed_dictionaries({
+        'timer_jitter': st.sampled_from([0.0, 0.0, 2.0 ** -12])}),   # timers fire slightly late
     # polling clients come in flavours: plain, JSONP (j=<n>, d=<payload> posts), compressed
     # answers (Accept-Encoding with a low threshold), both
     'client_flavours': ['plain', 'plain', 'plain', 'jsonp', 'gzip', 'jsonp+gzip'],
